@@ -156,6 +156,7 @@ func c15ResolveRoles(c *Ctx) *c15K {
 	cfg := c15Cfg{CacheT: pkg + ".Cache", Holders: map[string]bool{}, OptsT: pkg + ".CacheOptions", NowFuncs: map[string]bool{}}
 	var mapT *types.Named
 	var ints, chans, clocks, nowFuncs []string
+	var ifaceFields []FieldID
 	// the state fields: those of Cache and of the struct types of this package nested in it
 	var scan func(holder string, st *types.Struct, depth int)
 	scan = func(holder string, st *types.Struct, depth int) {
@@ -187,6 +188,8 @@ func c15ResolveRoles(c *Ctx) *c15K {
 			case *types.Interface:
 				if c15HasNow(ft) {
 					clocks = append(clocks, key)
+				} else {
+					ifaceFields = append(ifaceFields, FieldID{holder, f.Name()})
 				}
 			case *types.Signature:
 				if u.Params().Len() == 0 && u.Results().Len() == 1 && c15IsTimeTime(u.Results().At(0).Type()) {
@@ -201,7 +204,38 @@ func c15ResolveRoles(c *Ctx) *c15K {
 	}
 	scan(cfg.CacheT, cst, 0)
 	if mapT == nil {
-		undecided("Cache no longer has a *haxmap.Map field (the store anchor moved)")
+		// the map behind an interface seam: a state field of interface type
+		// whose only store boxes a *haxmap.Map
+		tmp := &c15X{p: p, cfg: cfg}
+		for _, id := range ifaceFields {
+			sts := tmp.fieldStores(id)
+			if len(sts) != 1 {
+				continue
+			}
+			var boxed types.Type
+			switch v := sts[0].Val.(type) {
+			case *ssa.MakeInterface:
+				boxed = v.X.Type()
+			case *ssa.Phi:
+				for _, e := range v.Edges {
+					if mi, ok := e.(*ssa.MakeInterface); ok {
+						boxed = mi.X.Type()
+					}
+				}
+			}
+			if boxed == nil {
+				continue
+			}
+			if n, ok := deref(boxed).(*types.Named); ok && n.Obj().Pkg() != nil && n.Obj().Pkg().Path() == c15Hax && n.Obj().Name() == "Map" {
+				if mapT != nil {
+					undecided("Cache has more than one field holding a haxmap.Map: the store cannot be identified")
+				}
+				mapT, k.mapF = n, id.String()
+			}
+		}
+	}
+	if mapT == nil {
+		undecided("Cache no longer has a *haxmap.Map field, directly or behind an interface with a single boxed map (the store anchor moved)")
 	}
 	if len(clocks) != 1 {
 		undecided("Cache has %d fields with a Now() time.Time method; the cache clock cannot be identified", len(clocks))
@@ -340,25 +374,29 @@ func (k *c15K) chanField(v ssa.Value, env *c15Env) string {
 		break
 	}
 	if mk, ok := sv.(*ssa.MakeChan); ok {
+		// any store, in the function that makes it, of a value that is this very channel into a state field
 		found := ""
-		var scan func(v ssa.Value, depth int)
-		scan = func(v ssa.Value, depth int) {
-			for _, r := range refs(v) {
-				switch t := r.(type) {
-				case *ssa.Store:
-					if fa, ok := t.Addr.(*ssa.FieldAddr); ok && t.Val == v {
-						if id := fieldIDOfAddr(fa); k.x.cfg.hkey(id) != "" {
-							found = k.x.cfg.hkey(id)
-						}
-					}
-				case *ssa.ChangeType:
-					if depth < 3 {
-						scan(t, depth+1)
-					}
-				}
+		allInstrs(mk.Parent(), func(in ssa.Instruction) {
+			st, isSt := in.(*ssa.Store)
+			if !isSt {
+				return
 			}
-		}
-		scan(mk, 0)
+			fa, isFA := st.Addr.(*ssa.FieldAddr)
+			if !isFA || k.x.cfg.hkey(fieldIDOfAddr(fa)) == "" {
+				return
+			}
+			w, _ := k.x.strip(st.Val, nil)
+			for i := 0; i < 4; i++ {
+				if cv, isCT := w.(*ssa.ChangeType); isCT {
+					w = cv.X
+					continue
+				}
+				break
+			}
+			if w == ssa.Value(mk) {
+				found = k.x.cfg.hkey(fieldIDOfAddr(fa))
+			}
+		})
 		return found
 	}
 	return ""
@@ -604,27 +642,78 @@ func c15NeedFields(n *types.Named, names ...string) {
 	}
 }
 
-// mapCallE: in (in env) is haxmap.Map.<name> on the map loaded from the store field of Cache.
-func (k *c15K) mapCallE(in ssa.Instruction, env *c15Env, name string) (*ssa.CallCommon, bool) {
+// mapMethod: in (in env) calls a method of haxmap.Map on the map loaded from
+// the store field of the cache — directly, or through a method value
+// (`range c.m.ForEach`, `del := c.m.Del`) whose target is known. Returns the
+// method name and a call descriptor whose Args[0] is the receiver.
+func (k *c15K) mapMethod(in ssa.Instruction, env *c15Env) (string, *ssa.CallCommon, bool) {
 	ci, ok := in.(ssa.CallInstruction)
 	if !ok {
-		return nil, false
-	}
-	obj := calleeObj(ci)
-	if obj == nil || obj.Pkg() == nil || obj.Pkg().Path() != c15Hax {
-		return nil, false
-	}
-	if name != "" && obj.Name() != name {
-		return nil, false
+		return "", nil, false
 	}
 	cc := ci.Common()
-	if len(cc.Args) == 0 {
+	obj := calleeObj(ci)
+	args := cc.Args
+	recvEnv := env
+	if cc.IsInvoke() {
+		// an interface seam in front of the map: the method of the boxed map
+		tg, ok := k.x.invokeTarget(cc, env)
+		if !ok || tg.Fn == nil {
+			return "", nil, false
+		}
+		o, isF := tg.Fn.Object().(*types.Func)
+		if !isF || o.Pkg() == nil || o.Pkg().Path() != c15Hax {
+			return "", nil, false
+		}
+		if _, _, id, ok := k.x.fieldRead(cc.Value, env); ok && k.x.cfg.hkey(id) == k.mapF {
+			return o.Name(), &ssa.CallCommon{Value: cc.Value, Args: append([]ssa.Value{cc.Value}, cc.Args...)}, true
+		}
+		return "", nil, false
+	}
+	if _, isFn := cc.Value.(*ssa.Function); !isFn && !cc.IsInvoke() {
+		// a func value: a bound method of the map
+		if _, isB := cc.Value.(*ssa.Builtin); isB {
+			return "", nil, false
+		}
+		obj = nil
+		ts, unk := k.x.funcValues(cc.Value, env, 0)
+		if unk || len(ts) != 1 || ts[0].Fn == nil {
+			return "", nil, false
+		}
+		if len(ts[0].Bound) != 1 {
+			// a plain closure / function called through a value: not a map method
+			return "", nil, false
+		}
+		o, isF := ts[0].Fn.Object().(*types.Func)
+		if !isF {
+			return "", nil, false
+		}
+		obj = o
+		args = append([]ssa.Value{ts[0].Bound[0]}, cc.Args...)
+		recvEnv = ts[0].BEnv
+	}
+	if obj == nil || obj.Pkg() == nil || obj.Pkg().Path() != c15Hax || len(args) == 0 {
+		return "", nil, false
+	}
+	if sig, isSig := obj.Type().(*types.Signature); !isSig || sig.Recv() == nil {
+		return "", nil, false
+	}
+	if _, _, id, ok := k.x.fieldRead(args[0], recvEnv); ok && k.x.cfg.hkey(id) == k.mapF {
+		if len(args) != len(cc.Args) {
+			return obj.Name(), &ssa.CallCommon{Value: cc.Value, Args: args}, true
+		}
+		return obj.Name(), cc, true
+	}
+	return "", nil, false
+}
+
+// mapCallE: in (in env) is haxmap.Map.<name> on the store ("" = any method).
+func (k *c15K) mapCallE(in ssa.Instruction, env *c15Env, name string) (*ssa.CallCommon, bool) {
+	n, cc, ok := k.mapMethod(in, env)
+	if !ok || (name != "" && n != name) {
 		return nil, false
 	}
-	if _, _, id, ok := k.x.fieldRead(cc.Args[0], env); ok && k.x.cfg.hkey(id) == k.mapF {
-		return cc, true
-	}
-	return nil, false
+	return cc, true
 }
 
 func (k *c15K) mapCall(in ssa.Instruction, name string) (*ssa.CallCommon, bool) {
@@ -1166,6 +1255,20 @@ func c15CapRule(p *Prog, r *Report, x *c15X, set *ssa.Function, capRule, expRule
 			default:
 				if call, ok := lf.V.(*ssa.Call); ok && builtinName(call) == "min" && len(call.Call.Args) == 2 {
 					a, b := x.term(call.Call.Args[0], lf.Env), x.term(call.Call.Args[1], lf.Env)
+					// max(maxTTL, k) with k <= 0 is maxTTL itself wherever maxTTL > 0 holds (required below)
+					clamped := func(t c15Term) c15Term {
+						if mc, ok := t.V.(*ssa.Call); ok && builtinName(mc) == "max" && len(mc.Call.Args) == 2 {
+							u, w := x.term(mc.Call.Args[0], lf.Env), x.term(mc.Call.Args[1], lf.Env)
+							if u.Kind == c15MaxTTL && w.Kind == c15Const && w.Int <= 0 {
+								return u
+							}
+							if w.Kind == c15MaxTTL && u.Kind == c15Const && u.Int <= 0 {
+								return w
+							}
+						}
+						return t
+					}
+					a, b = clamped(a), clamped(b)
 					if (a.Key == ttlKey && b.Kind == c15MaxTTL) || (b.Key == ttlKey && a.Kind == c15MaxTTL) {
 						ag := kinds["min"]
 						ag.n++
@@ -1177,6 +1280,28 @@ func c15CapRule(p *Prog, r *Report, x *c15X, set *ssa.Function, capRule, expRule
 				}
 				r.Undecide("%s%s: the TTL reaching the expiry (%s) is neither the ttl parameter nor the cap field of the cache", fname, sfx, t.String())
 			}
+		}
+		derived := false
+		for _, lf := range leaves {
+			for _, f := range lf.Facts {
+				for _, t := range []c15Term{f.X, f.Y} {
+					if t.Kind != c15Other || t.V == nil {
+						continue
+					}
+					switch v := t.V.(type) {
+					case *ssa.BinOp:
+						derived = true
+					case *ssa.Call:
+						if builtinName(v) != "" {
+							derived = true
+						}
+					}
+				}
+			}
+		}
+		if derived && (kinds["ttl"].bad != "" || kinds["maxTTL"].bad != "" || kinds["min"].bad != "") {
+			r.Undecide("%s%s: the cap could not be established on some path, but the conditions on it involve arithmetic / builtin results that are not decoded", fname, sfx)
+			continue
 		}
 		if len(ctx.Opaque) > 0 && (kinds["ttl"].bad != "" || kinds["maxTTL"].bad != "" || kinds["min"].bad != "") {
 			r.Undecide("%s%s: the cap could not be established on some path, but a condition on that path could not be decoded (%s)", fname, sfx, strings.Join(ctx.Opaque, "; "))
@@ -1449,9 +1574,9 @@ func (k *c15K) analyseDeletes(ctx *c15Ctx, root *ssa.Function, renv *c15Env) *c1
 		a.Unresolved = append(a.Unresolved, k.p.Pos(instrPos(in)))
 	})
 	for _, d := range dels {
-		cc := d.Site().Common()
+		_, cc, _ := k.mapMethod(d.In, d.Env)
 		info := c15Del{Site: d}
-		if calleeObj(d.Site()).Name() == "GetAndDel" {
+		if n, _, _ := k.mapMethod(d.In, d.Env); n == "GetAndDel" {
 			info.Adds = []c15KeyAdd{{d, cc.Args[1]}}
 		} else {
 			info.Adds, info.Unrec, info.Empty = k.keyAdds(a, cc.Args[1], d.Env, d, 0)
@@ -1534,6 +1659,24 @@ func (k *c15K) keyAdds(a *c15DelAnalysis, v ssa.Value, env *c15Env, site c15Site
 				continue
 			}
 		case *ssa.Call:
+			// a library reshaping of the same slice that cannot add keys: slices.Grow / Clip / Compact / Clone …
+			// (first argument the variable itself, no other argument that could carry a key)
+			if obj := calleeObj(t); obj != nil && obj.Pkg() != nil && obj.Pkg().Path() == "slices" && len(t.Call.Args) >= 1 && sameSlot(t.Call.Args[0]) {
+				carries := false
+				for _, a := range t.Call.Args[1:] {
+					switch u := a.Type().Underlying().(type) {
+					case *types.Basic:
+						if u.Info()&types.IsString != 0 {
+							carries = true
+						}
+					default:
+						carries = true
+					}
+				}
+				if !carries {
+					continue
+				}
+			}
 			if builtinName(t) == "append" && len(t.Call.Args) == 2 && sameSlot(t.Call.Args[0]) {
 				elems, ok := varargsElems(t.Call.Args[1])
 				if !ok {
@@ -1878,21 +2021,27 @@ func (k *c15K) reachesMutation(tg c15Target, env *c15Env) bool {
 	found := false
 	ge := k.x.activate(tg, nil, env, nil, "call")
 	k.x.walk(k.x.newCtx(), tg.Fn, ge, nil, func(in ssa.Instruction, env *c15Env) {
-		if _, isMap := k.mapCallE(in, env, ""); isMap && !c15ReadOnlyMapMethod(calleeObj(in.(ssa.CallInstruction)).Name()) {
+		if n, _, isMap := k.mapMethod(in, env); isMap && !c15ReadOnlyMapMethod(n) {
 			found = true
 		}
 	}, nil)
 	return found
 }
 
-// chain: the instructions leading from the root of a walk to site, outermost first.
-func c15Chain(s c15Site) []ssa.Instruction {
-	var rev []ssa.Instruction
-	rev = append(rev, s.In)
+// c15Link: one step of the call chain leading to a site: the instruction, and
+// the activation it entered (nil for the site's own instruction).
+type c15Link struct {
+	in  ssa.Instruction
+	env *c15Env
+}
+
+// c15Chain: the instructions leading from the root of a walk to site, outermost first.
+func c15Chain(s c15Site) []c15Link {
+	rev := []c15Link{{s.In, nil}}
 	for e := s.Env; e != nil && e.via != nil; e = e.up {
-		rev = append(rev, e.via)
+		rev = append(rev, c15Link{e.via, e})
 	}
-	out := make([]ssa.Instruction, 0, len(rev))
+	out := make([]c15Link, 0, len(rev))
 	for i := len(rev) - 1; i >= 0; i-- {
 		out = append(out, rev[i])
 	}
@@ -1901,23 +2050,40 @@ func c15Chain(s c15Site) []ssa.Instruction {
 
 // c15Before: a is executed before b on every execution that reaches b (both
 // seen from the same walk root): at the first level where their call chains
-// part, a's instruction dominates b's and is not merely deferred.
+// part, a's instruction dominates b's and is not merely deferred / spawned;
+// two steps of one literal table run in table order.
 func c15Before(a, b c15Site) bool {
 	ca, cb := c15Chain(a), c15Chain(b)
 	for i := 0; i < len(ca) && i < len(cb); i++ {
-		if ca[i] == cb[i] {
+		if ca[i].in == cb[i].in {
+			if ca[i].env != nil && cb[i].env != nil && ca[i].env.tab > 0 && cb[i].env.tab > 0 && ca[i].env.tab != cb[i].env.tab {
+				if _, isGo := ca[i].in.(*ssa.Go); isGo {
+					return false
+				}
+				if _, isDefer := ca[i].in.(*ssa.Defer); isDefer {
+					return false
+				}
+				// the step itself must not merely spawn / defer what it leads to
+				for j := i + 1; j < len(ca)-1; j++ {
+					switch ca[j].in.(type) {
+					case *ssa.Go, *ssa.Defer:
+						return false
+					}
+				}
+				return ca[i].env.tab < cb[i].env.tab
+			}
 			continue
 		}
-		if ca[i].Parent() != cb[i].Parent() {
+		if ca[i].in.Parent() != cb[i].in.Parent() {
 			return false
 		}
-		if _, isDefer := ca[i].(*ssa.Defer); isDefer && i < len(ca)-1 {
+		if _, isDefer := ca[i].in.(*ssa.Defer); isDefer && i < len(ca)-1 {
 			return false // runs at function exit
 		}
-		if _, isGo := ca[i].(*ssa.Go); isGo && i < len(ca)-1 {
+		if _, isGo := ca[i].in.(*ssa.Go); isGo && i < len(ca)-1 {
 			return false // runs concurrently
 		}
-		return instrDominates(ca[i], cb[i])
+		return instrDominates(ca[i].in, cb[i].in)
 	}
 	return false
 }
@@ -2167,8 +2333,7 @@ func (k *c15K) checkPeriodic(ctx *c15Ctx, g c15Go, gname string, cleanup *ssa.Fu
 		if callIs(ci, "sync", "WaitGroup", "Wait") && k.wgOp(in, "Wait") != k.runF {
 			hasJoin = true
 		}
-		if _, isMap := k.mapCallE(in, env, ""); isMap {
-			name := calleeObj(ci).Name()
+		if name, _, isMap := k.mapMethod(in, env); isMap {
 			if c15ReadOnlyMapMethod(name) {
 				return
 			}
@@ -2412,7 +2577,7 @@ func (k *c15K) checkWriters() {
 			}
 			nSite++
 			keys := []ssa.Value{cc.Args[1]}
-			if calleeObj(in.(ssa.CallInstruction)).Name() == "Del" {
+			if n, _, _ := k.mapMethod(in, env); n == "Del" {
 				sv, senv := k.x.strip(cc.Args[1], env)
 				if elems, ok := varargsElems(sv); ok {
 					keys, env = elems, senv
@@ -2467,14 +2632,21 @@ func (k *c15K) checkWriters() {
 			if !isCall {
 				return
 			}
-			obj := calleeObj(ci)
-			if obj == nil || obj.Pkg() == nil || obj.Pkg().Path() != c15Hax || c15ReadOnlyMapMethod(obj.Name()) {
+			name := ""
+			if n, _, ok := k.mapMethod(in, nil); ok {
+				name = n
+			} else if obj := calleeObj(ci); obj != nil {
+				if obj.Pkg() == nil || obj.Pkg().Path() != c15Hax {
+					return
+				}
+				if sig, ok := obj.Type().(*types.Signature); !ok || sig.Recv() == nil {
+					return // constructors
+				}
+				name = obj.Name()
+			}
+			if name == "" || c15ReadOnlyMapMethod(name) {
 				return
 			}
-			if sig, ok := obj.Type().(*types.Signature); !ok || sig.Recv() == nil {
-				return // constructors
-			}
-			name := obj.Name()
 			var owners []string
 			for _, api := range allowed[name] {
 				if reach[api][origin(fn)] {
